@@ -2,6 +2,9 @@
 import MysticVerif.Basic.Proto
 import MysticVerif.Model.Dsl
 import MysticVerif.Model.Combinators
+import MysticVerif.Model.CombinatorsX
+import MysticVerif.Model.PenaltyTree
+import MysticVerif.Model.Couplers
 
 namespace MysticVerif.DrvC17
 open MysticVerif MysticVerif.Comb MysticVerif.Dsl
@@ -20,19 +23,153 @@ def showRes (r : Res (List Float) × Stats) : String :=
   match r with
   | (.success y t links, st) => s!"ok success y={pFs y} t={t} links={links} calls={st.calls} draws={st.draws}"
   | (.fail y, st) => s!"ok fail y={pFs y} calls={st.calls} draws={st.draws}"
-  | (.raised, st) => s!"ok raised calls={st.calls} draws={st.draws}"
   | (.stuck, _) => "err stuck"
 
-def ofOpt (o : Option (List Float)) : Out (List Float) :=
+def member (ms : Array Con) (i : Nat) (x : List Float) : Option (List Float) :=
+  match ms[i]? with
+  | some c => c.apply x
+  | none => some x
+
+/-! ### extended model (Model/CombinatorsX): guarded DSL members and recorded oracles -/
+
+open MysticVerif.CombX (Out ResX)
+
+/-- a DSL member behind a guard: when `x[i] > thr` the call does `act` instead of applying the term -/
+inductive Act where
+  | zdiv | tverr | raise | short | long
+structure GCon where
+  guard : Option (Act × Nat × Float)
+  con : Con
+
+def parseAct : Val → Option Act
+  | .sym "zdiv" => some .zdiv | .sym "tverr" => some .tverr | .sym "raise" => some .raise
+  | .sym "short" => some .short | .sym "long" => some .long
+  | _ => none
+
+def parseGCon : Val → Option GCon
+  | .list [.sym "g", .sym "none", c] => do pure { guard := none, con := ← parseCon c }
+  | .list [.sym "g", a, .int i, thr, c] => do
+    pure { guard := some (← parseAct a, i.toNat, ← thr.asFloat?), con := ← parseCon c }
+  | _ => none
+
+def ofOptX (o : Option (List Float)) : Out (List Float) :=
   match o with
   | some y => .ret y
   | none => .zdiv
 
-/-- deterministic DSL members: call number `j` goes to member `j % n` -/
-def member (ms : Array Con) (j : Nat) (x : List Float) : Out (List Float) :=
+def GCon.run (g : GCon) (x : List Float) : Out (List Float) :=
+  let fire : Bool := match g.guard with
+    | some (_, i, thr) => (match x[i]? with | some v => decide (v > thr) | none => false)
+    | none => false
+  if fire then
+    match g.guard with
+    | some (.zdiv, _, _) => .zdiv
+    | some (.tverr, _, _) => .tverr
+    | some (.raise, _, _) => .raise
+    | some (.short, _, _) => .ret x.dropLast
+    | some (.long, _, _) => .ret (x ++ [1.0])
+    | none => .raise
+  else ofOptX (g.con.apply x)
+
+def xmember (ms : Array GCon) (j : Nat) (x : List Float) : Out (List Float) :=
   match ms[j % ms.size]? with
-  | some c => ofOpt (c.apply x)
+  | some g => g.run x
   | none => .ret x
+
+def showResX (r : ResX (List Float) × Stats) : String :=
+  match r with
+  | (.success y t links, st) => s!"ok success y={pFs y} t={t} links={links} calls={st.calls} draws={st.draws}"
+  | (.fail y, st) => s!"ok fail y={pFs y} calls={st.calls} draws={st.draws}"
+  | (.raised, st) => s!"ok raised calls={st.calls} draws={st.draws}"
+  | (.stuck, _) => "err stuck"
+
+/-- recorded call `j` of a real run: the vector the member received and what it did -/
+def parseOut : Val → Option (Out (List Float))
+  | .sym "zdiv" => some .zdiv | .sym "tverr" => some .tverr | .sym "raise" => some .raise
+  | .list [.sym "ret", y] => do pure (.ret (← y.asFloats?))
+  | _ => none
+
+def parseRec : Val → Option (List Float × Out (List Float))
+  | .list [inp, o] => do pure (← inp.asFloats?, ← parseOut o)
+  | _ => none
+
+def sameBits (a b : List Float) : Bool := a.map Float.toBits == b.map Float.toBits
+
+/-- the oracle: call `j` behaves as recorded PROVIDED the model hands it the vector the real member received
+(otherwise the model's run stops with `raised` at a call the implementation survived: a visible divergence) -/
+def oracle (recs : Array (List Float × Out (List Float))) (j : Nat) (x : List Float) : Out (List Float) :=
+  match recs[j]? with
+  | some (inp, o) => if sameBits inp x then o else .raise
+  | none => .raise
+
+/-! ### penalty trees (Model/PenaltyTree, built by C15): C17's own stream -/
+
+open MysticVerif.Pen in
+instance : PenOps Float where
+  powi h n := Float.pow h (Float.ofInt n)
+  sq x := Float.pow x 2.0
+  root x := Float.pow x 0.5
+  abs := Float.abs
+  log := Float.log
+  inf := 1.0 / 0.0
+
+section pen
+open MysticVerif.Pen
+
+def parsePType : Val → Option PType
+  | .sym "qEq" => some .qEq | .sym "lEq" => some .lEq | .sym "uEq" => some .uEq
+  | .sym "uIneq" => some .uIneq | .sym "barrier" => some .barrier | .sym "qIneq" => some .qIneq
+  | .sym "lIneq" => some .lIneq | .sym "lagIneq" => some .lagIneq | .sym "lagEq" => some .lagEq
+  | _ => none
+
+mutual
+partial def parsePT : Val → Option (PT Float)
+  | .list [.sym "base", .int j] => some (.base j.toNat)
+  | .list [.sym "pen", .list [t, k, h, .int n, ys], c, inner] => do
+    pure (.pen { t := ← parsePType t, k := ← k.asFloat?, h := ← h.asFloat?, n := n, y := ← ys.asFloats? }
+      (← parsePC c) (← parsePT inner))
+  | _ => none
+partial def parsePC : Val → Option (PC Float)
+  | .list [.sym "leaf", .int i] => some (.leaf i.toNat)
+  | .list [.sym "not", t, c] => do pure (.not (← parsePType t) (← parsePC c))
+  | .list (.sym "and" :: ms) => do pure (.and (← parsePL ms))
+  | .list (.sym "or" :: m :: ms) => do pure (.or (← parsePT m) (← parsePL ms))
+  | _ => none
+partial def parsePL : List Val → Option (PL Float)
+  | [] => some .nil
+  | m :: ms => do pure (.cons (← parsePT m) (← parsePL ms))
+end
+
+inductive LeafT where
+  | e (ex : Expr)
+  | rnorm (c : Con)
+
+def parseLeaf : Val → Option LeafT
+  | .list [.sym "e", ex] => do pure (.e (← parseExpr ex))
+  | .list [.sym "rnorm", c] => do pure (.rnorm (← parseCon c))
+  | _ => none
+
+def envAt (leaves : Array LeafT) (x : List Float) : Env Float where
+  c i := match leaves[i]? with
+    | some (.e ex) => ex.eval x
+    | some (.rnorm con) => asPenaltyCond x (con.apply x)
+    | none => none
+  f _ := 0.0
+
+def pVal : Except Err Float → String
+  | .ok v => s!"(v {pF v})"
+  | .error .zerodiv => "(raise zerodiv)"
+  | .error .index => "(raise index)"
+
+end pen
+
+/-! ### couplers with arguments (Model/Couplers): `c(x, a) = con(x)` then `+ a` on every entry,
+`f(v, b) = e(v) * b`, `g(v, b) = [t * b for t in v]`, `p(x, a) = e2(x) - a` -/
+
+def cArg (c : Con) (x : List Float) (a : Float) : List Float := ((c.apply x).getD x).map (· + a)
+def fArg (e : Expr) (v : List Float) (b : Float) : Float := ((e.eval v).getD 0.0) * b
+def gArg (v : List Float) (b : Float) : List Float := v.map (· * b)
+def pArg (e : Expr) (x : List Float) (a : Float) : Float := ((e.eval x).getD 0.0) - a
 
 def handle : Handler
   | .sym "and" :: args => Id.run do
@@ -54,7 +191,69 @@ def handle : Handler
     let some x := (kw? args "x").bind Val.asFloats? | return "bad-op"
     let some m := (kw? args "member").bind parseCon | return "bad-op"
     let some draws := (kw? args "draws").bind Val.asList? |>.bind (·.mapM parseDrawVec) | return "bad-op"
-    return showRes (not_ (fun _ v => ofOpt (m.apply v)) randVec cap x draws)
+    return showRes (not_ m.apply randVec cap x draws)
+  | .sym "xand" :: args => Id.run do
+    let some cap := (kw? args "cap").bind Val.asNat? | return "bad-op"
+    let some x := (kw? args "x").bind Val.asFloats? | return "bad-op"
+    let some ms := (kw? args "members").bind Val.asList? |>.bind (·.mapM parseGCon) | return "bad-op"
+    let some draws := (kw? args "draws").bind Val.asList? |>.bind (·.mapM parseDrawVec) | return "bad-op"
+    return showResX (CombX.and_ (xmember ms.toArray) randVec ms.length cap x draws)
+  | .sym "xor" :: args => Id.run do
+    let some cap := (kw? args "cap").bind Val.asNat? | return "bad-op"
+    let some x := (kw? args "x").bind Val.asFloats? | return "bad-op"
+    let some ms := (kw? args "members").bind Val.asList? |>.bind (·.mapM parseGCon) | return "bad-op"
+    let some draws := (kw? args "draws").bind Val.asNats? | return "bad-op"
+    return showResX (CombX.or_ (xmember ms.toArray) id ms.length cap x draws)
+  | .sym "xnot" :: args => Id.run do
+    let some cap := (kw? args "cap").bind Val.asNat? | return "bad-op"
+    let some x := (kw? args "x").bind Val.asFloats? | return "bad-op"
+    let some m := (kw? args "member").bind parseGCon | return "bad-op"
+    let some draws := (kw? args "draws").bind Val.asList? |>.bind (·.mapM parseDrawVec) | return "bad-op"
+    return showResX (CombX.not_ (fun _ v => m.run v) randVec cap x draws)
+  | .sym "oand" :: args => Id.run do
+    let some n := (kw? args "n").bind Val.asNat? | return "bad-op"
+    let some cap := (kw? args "cap").bind Val.asNat? | return "bad-op"
+    let some x := (kw? args "x").bind Val.asFloats? | return "bad-op"
+    let some recs := (kw? args "recs").bind Val.asList? |>.bind (·.mapM parseRec) | return "bad-op"
+    let some draws := (kw? args "draws").bind Val.asList? |>.bind (·.mapM parseDrawVec) | return "bad-op"
+    return showResX (CombX.and_ (oracle recs.toArray) randVec n cap x draws)
+  | .sym "oor" :: args => Id.run do
+    let some n := (kw? args "n").bind Val.asNat? | return "bad-op"
+    let some cap := (kw? args "cap").bind Val.asNat? | return "bad-op"
+    let some x := (kw? args "x").bind Val.asFloats? | return "bad-op"
+    let some recs := (kw? args "recs").bind Val.asList? |>.bind (·.mapM parseRec) | return "bad-op"
+    let some draws := (kw? args "draws").bind Val.asNats? | return "bad-op"
+    return showResX (CombX.or_ (oracle recs.toArray) id n cap x draws)
+  | .sym "onot" :: args => Id.run do
+    let some cap := (kw? args "cap").bind Val.asNat? | return "bad-op"
+    let some x := (kw? args "x").bind Val.asFloats? | return "bad-op"
+    let some recs := (kw? args "recs").bind Val.asList? |>.bind (·.mapM parseRec) | return "bad-op"
+    let some draws := (kw? args "draws").bind Val.asList? |>.bind (·.mapM parseDrawVec) | return "bad-op"
+    return showResX (CombX.not_ (oracle recs.toArray) randVec cap x draws)
+  | .sym "pen" :: args => Id.run do   -- values of a penalty tree (and of sub-objects) at points
+    let some leaves := (kw? args "leaves").bind Val.asList? |>.bind (·.mapM parseLeaf) | return "bad-op"
+    let some t := (kw? args "t").bind parsePT | return "bad-op"
+    let some pts := (kw? args "pts").bind Val.asList? |>.bind (·.mapM Val.asFloats?) | return "bad-op"
+    let vals := pts.map fun x => pVal (Pen.evalT (envAt leaves.toArray x) t)
+    return "ok r=(" ++ " ".intercalate vals ++ ")"
+  | .sym "cpl" :: args => Id.run do   -- couplers with decorator-time (a) and call-time (b) arguments
+    let some x := (kw? args "x").bind Val.asFloats? | return "bad-op"
+    let some c := (kw? args "c").bind parseCon | return "bad-op"
+    let some e := (kw? args "f").bind parseExpr | return "bad-op"
+    let some e2 := (kw? args "p").bind parseExpr | return "bad-op"
+    let some a := (kw? args "a").bind Val.asFloat? | return "bad-op"
+    let some b := (kw? args "b").bind Val.asFloat? | return "bad-op"
+    let i1 := Cpl.inner (cArg c) a (fArg e) x b
+    let o1 := Cpl.outer (cArg c) a gArg x b
+    let i2 := Cpl.innerProxy (cArg c) a (fArg e) x b
+    let o2 := Cpl.outerProxy (cArg c) a gArg x b
+    let a1 := Cpl.additive (pArg e2) a (fArg e) x b
+    let a2 := Cpl.additiveProxy (pArg e2) a (fArg e) x b
+    let w1 := Cpl.withConstraintInner (cArg c) a x
+    let w2 := Cpl.withConstraintOuter (cArg c) a x
+    let w3 := Cpl.withConstraintInnerProxy (cArg c) x b
+    let w4 := Cpl.withConstraintOuterProxy (cArg c) x b
+    return s!"ok inner={pF i1} outer={pFs o1} innerp={pF i2} outerp={pFs o2} add={pF a1} addp={pF a2} wi={pFs w1} wo={pFs w2} wip={pFs w3} wop={pFs w4}"
   | .sym "con" :: args => Id.run do   -- plain DSL evaluation (twin test of harness/dsl.py)
     let some x := (kw? args "x").bind Val.asFloats? | return "bad-op"
     let some m := (kw? args "member").bind parseCon | return "bad-op"
